@@ -81,7 +81,7 @@ func lag(inflow data.ND1Float64,
 
 		for i := 0; i < inflow.Len1(); i++ {
 			idxInflow[0] = i
-			lagged[i+inflow.Len1()] = inflow.Get(idxInflow)
+			lagged[lagSteps-inflow.Len1()+i] = inflow.Get(idxInflow)
 		}
 	} else {
 		for i := 0; i < lagSteps; i++ {
